@@ -1817,10 +1817,13 @@ static std::string genSeq(Rng& r, Gen& g) {
             }
         }
         if (cand.empty()) continue;
-        if (!o.kd && r.coin(1, 5)) {   // the object as its own argument
-          std::vector<Op> selfs;
-          for (auto& q : cand) if (q.s == q.t && q.kind != oFill && q.kind != oScale) selfs.push_back(q);
-          if (!selfs.empty()) cand = selfs;
+        if (!o.kd && o.kind != oFill && o.kind != oScale) {
+          // the object as its own argument (`A += A`, `A.rightmultiply(A)`): one binary operation out of seven when there
+          // is another choice, otherwise one draw out of three (a self-argument tuple is compatible more often than a pair)
+          std::vector<Op> selfs, others;
+          for (auto& q : cand) (q.s == q.t ? selfs : others).push_back(q);
+          if (!selfs.empty() && !others.empty()) cand = r.coin(1, 7) ? selfs : others;
+          else if (others.empty() && !r.coin(1, 3)) continue;
         }
         if (o.kd && r.coin()) {   // prefer a view as the matrix operand when one is available
           std::vector<Op> views;
